@@ -532,6 +532,8 @@ package security
 //@ func verifyFSPathEndpoint (nameIP, namePort, peerAddr) (err)
 //@   props C18
 //@   assigns nothing
+//@   ensures names_the_live_endpoint: [C18] err == nil ==> peerAddr != nil && namePort == pp && parsedIP(nameIP) == parsedIP(ph)
+//@   assert before call net.SplitHostPort #1 endpoint_of_this_connection: [C18] peerAddr != nil
 
 // ---- token authentication (C11) ------------------------------------------------------------------
 //@ pred sameBytes(a, b) = len(a) == len(b) && forall i :: 0 <= i && i < len(a) ==> a[i] == b[i]
